@@ -153,7 +153,7 @@ macro_rules! impl_clamp_hwb {
 
                 // The blackness fills up the rest when the sum was too large.
                 // Their rounded quotients may otherwise add up to more than 1.
-                blackness = sum.gt(&T::max_intensity()).select(T::one() - whiteness.clone(), blackness);
+                blackness = sum.gt(&T::max_intensity()).select(T::max_intensity() - whiteness.clone(), blackness);
 
                 Self {hue: self.hue, whiteness, blackness $(, $phantom: self.$phantom)?}
             }
@@ -185,7 +185,7 @@ macro_rules! impl_clamp_hwb {
                 // Their rounded quotients may otherwise add up to more than 1.
                 self.blackness = sum
                     .gt(&T::max_intensity())
-                    .select(T::one() - self.whiteness.clone(), self.blackness.clone());
+                    .select(T::max_intensity() - self.whiteness.clone(), self.blackness.clone());
             }
         }
     };
